@@ -374,6 +374,29 @@ func GetRulePatterns(ctx *Context, rule map[string]interface{}) []map[string]int
 	return events
 }
 
+// withoutOptional returns the pattern without the properties whose
+// values are optional pattern variables ("??x").  A fact or event
+// matches such a pattern without having those properties, so they
+// must not be used to look up candidates in an index.  (Candidates
+// are matched against the whole pattern afterwards.)
+func withoutOptional(pattern map[string]interface{}) map[string]interface{} {
+	acc := make(map[string]interface{}, len(pattern))
+	for k, v := range pattern {
+		switch vv := v.(type) {
+		case string:
+			if strings.HasPrefix(vv, "??") {
+				continue
+			}
+		case map[string]interface{}:
+			v = withoutOptional(vv)
+		case Map:
+			v = withoutOptional(vv)
+		}
+		acc[k] = v
+	}
+	return acc
+}
+
 func (s *IndexedState) indexRule(ctx *Context, id string, rule map[string]interface{}) error {
 	Log(DEBUG, ctx, "IndexedState.indexRule", "state", s.Name, "rule", rule, "ruleId", id)
 	patterns := GetRulePatterns(ctx, rule)
@@ -389,7 +412,7 @@ func (s *IndexedState) indexRule(ctx *Context, id string, rule map[string]interf
 	}
 
 	for _, m := range patterns {
-		if err := s.RuleIndex.AddPatternMap(ctx, m, id); err != nil {
+		if err := s.RuleIndex.AddPatternMap(ctx, withoutOptional(m), id); err != nil {
 			Log(ERROR, ctx, "IndexedState.indexRule", "id", id, "pattern", m, "error", err)
 			return err
 		}
@@ -406,7 +429,7 @@ func (s *IndexedState) unindexRule(ctx *Context, id string, rule map[string]inte
 
 	for _, m := range patterns {
 		Log(DEBUG, ctx, "IndexedState.index", "id", id, "pattern", m)
-		if err := s.RuleIndex.RemPatternMap(ctx, m, id); err != nil {
+		if err := s.RuleIndex.RemPatternMap(ctx, withoutOptional(m), id); err != nil {
 			Log(ERROR, ctx, "IndexedState.unindex", "id", id, "pattern", m, "error", err)
 			return err
 		}
@@ -598,7 +621,7 @@ func (s *IndexedState) get(ctx *Context, id string, getLock bool) (Map, error) {
 
 func (s *IndexedState) SearchForIDs(ctx *Context, pattern Map) ([]string, error) {
 	Log(DEBUG, ctx, "IndexedState.SearchForIDs", "location", s.Name, "pattern", pattern)
-	terms := ExtractTerms(ctx, pattern)
+	terms := ExtractTerms(ctx, withoutOptional(pattern))
 
 	if len(terms) == 0 {
 		// Nothing to look up in the term index (an empty pattern,
